@@ -375,7 +375,7 @@ class BehavioralRTLIRToVVisitorL1( bir.BehavioralRTLIRNodeVisitor ):
       _value = value
       return one_bit_template.format( **locals() )
     elif isinstance( node.value, ( bir.IfExp, bir.UnaryOp, bir.BinOp, bir.Compare,
-                                   bir.Truncate, bir.SizeCast, bir.Reduce ) ):
+                                   bir.Truncate, bir.SizeCast, bir.Reduce, bir.FreeVar ) ):
       # value[msb] would bind the select to the last operand only (and is not
       # legal after a cast): select the sign bit from the (self-determined)
       # concatenation of the expression
